@@ -145,6 +145,57 @@ def plain(v, key=False):
     return False
 
 
+def replay_json(label, model):
+    """native replay: the shape classes defined natively (same source), field values from the counter-model plus boundary
+    values (ints beyond 2**53, empty / non-ascii / digit strings, every enum member, containers of 0..3 elements and None);
+    both fromJson(toJson(x)) and loads(dumps(x)) are compared field for field"""
+    import os
+    src = open(os.path.join(os.path.dirname(os.path.abspath(__file__)), 'shapes', 'shapes_json.py')).read()
+    ints = sorted({v for k, v in (model or {}).items() if isinstance(v, int) and not isinstance(v, bool)}
+                  | {0, 1, -1, 2 ** 53 + 1, -(2 ** 53) - 1, 2 ** 63 - 1})
+    return src + '''
+import sys, json
+INTS = %r
+STRS = ["", "x", "7", "\\u00e9\\u4e16"]
+COLORS = [Color.NONE, Color.RED, Color.GREEN, Color.BLUE]
+def eq(x, y):
+    if isinstance(x, SerializableEnum) or isinstance(y, SerializableEnum):
+        return type(x) is type(y) and x.value == y.value
+    if isinstance(x, Serializable) or isinstance(y, Serializable):
+        return type(x) is type(y) and all(eq(getattr(x, f), getattr(y, f)) for f in x._fields)
+    if isinstance(x, (list, tuple)) and isinstance(y, (list, tuple)):
+        return type(x) is type(y) and len(x) == len(y) and all(eq(a, b) for a, b in zip(x, y))
+    if isinstance(x, dict) and isinstance(y, dict):
+        return len(x) == len(y) and all(any(eq(k, k2) and eq(v, v2) for k2, v2 in y.items()) for k, v in x.items())
+    if isinstance(x, set) and isinstance(y, set):
+        return len(x) == len(y) and all(any(eq(a, b) for b in y) for a in x)
+    return type(x) is type(y) and x == y
+def leaf(i): return Leaf(n=INTS[i %% len(INTS)], name=STRS[i %% len(STRS)])
+values = []
+for i, n in enumerate(INTS):
+    values.append(Basic(i=n, f=0.5 * i, b=bool(i %% 2), s=STRS[i %% len(STRS)], c=COLORS[i %% 4], leaf=leaf(i)))
+values += [Lists(li=None, ls=None, lc=None, ll=None), Maps(di=None, ds=None, dc=None), Others(si=None, t=None)]
+for k in range(0, 4):
+    values.append(Lists(li=INTS[:k], ls=STRS[:k], lc=COLORS[:k], ll=[leaf(j) for j in range(k)]))
+    values.append(Others(si=set(INTS[:k]), t=(INTS[k], STRS[k], COLORS[k])))
+    for off in range(len(INTS)):
+        ks = (INTS[off:] + INTS[:off])[:k]
+        values.append(Maps(di={a: STRS[j %% 4] for j, a in enumerate(ks)}, ds={STRS[j]: ks[j] for j in range(k)},
+                           dc={COLORS[j]: leaf(j) for j in range(k)}))
+bad = []
+for x in values:
+    for how, f in (("fromJson(toJson(x))", lambda x: type(x).fromJson(x.toJson())), ("loads(dumps(x))", lambda x: type(x).loads(x.dumps()))):
+        try:
+            y = f(x)
+            if not eq(x, y): bad.append("%%s: %%r came back as %%r" %% (how, x, y))
+        except Exception as e:
+            bad.append("%%s: %%r raised %%r" %% (how, x, e))
+for b in bad[:6]: print(b[:300])
+print("%%d of %%d round trips do not reproduce the object" %% (len(bad), 2 * len(values)))
+sys.exit(1 if bad else 0)
+''' % (ints,)
+
+
 for _shape, _ns in (('Basic', (0,)), ('Lists', (None, 0, 1, 2, 3)), ('Maps', (None, 0, 1, 2, 3)), ('Others', (None, 0, 1, 2, 4))):
     for _n in _ns:
         @contract('serializable.Serializable.fromJson', props=['C15'], variant='roundtrip-%s-%s' % (_shape, 'none' if _n is None else _n))
@@ -159,6 +210,7 @@ for _shape, _ns in (('Basic', (0,)), ('Lists', (None, 0, 1, 2, 3)), ('Maps', (No
                 E.ghost('x', x)
                 E.ghost('json', j)
                 return dict(cls=ClassVal(ip.repo.cls(MOD + '.' + _shape)), record=j)
+            replay = replay_json
             ensures = {
                 'reproduces-the-object-field-for-field': lambda result, ghost: same(ghost.x, result),
                 'toJson-produced-plain-data': lambda ghost: plain(ghost.json),
@@ -199,4 +251,5 @@ for _shape, _ns in (('Basic', (0,)), ('Lists', (None, 2)), ('Maps', (None, 1, 2)
                     raise PathEnd()
                 E.ghost('x', x)
                 return dict(cls=ClassVal(ip.repo.cls(MOD + '.' + _shape)), record=through_json_text(ip, j))
+            replay = replay_json
             ensures = {'reproduces-the-object-field-for-field': lambda result, ghost: same(ghost.x, result)}
